@@ -409,6 +409,10 @@ class Exec:
     def gaddr_of(self, st, name):
         name = self.m.aliases.get(name, name)
         if name in self.snap.symbols: return self.snap.symbols[name]
+        if '@m' in name and name.startswith(('_ZZ', '_ZGVZ')):
+            # function-local static (and its guard): internal in the IR module, but one object in the process - the snapshot holds its current state
+            base = name.split('@m')[0]
+            if base in self.snap.symbols: return self.snap.symbols[base]
         if name in self.gaddr: return self.gaddr[name]
         if name.startswith('_ZTI') and (name not in self.m.globals or self.m.globals[name][1] is None):
             # std::type_info object living in a shared library (fundamental / std types): a stand-in { vptr, const char* __name }
@@ -1225,7 +1229,20 @@ def ext_memset(ex, st, fr, args, ins):
     for a in ex._overlap(st, dst, n): st.sym.pop(a)
     if ex.track_uninit: ex._mark_init(st, dst, n)
     ex.write_bytes(st, dst, bytes([v & 255]) * n); return dst
-def ext_atomic_guard(ex, st, fr, args, ins): return 1
+def ext_atomic_guard(ex, st, fr, args, ins):
+    # __cxa_guard_acquire: a function-local static that the (native) process has already initialised keeps its value - the guard byte in the snapshot says so
+    g = args[0]
+    if isinstance(g, int):
+        try:
+            if ex.read_bytes(st, g, 1) != b'\0': return 0
+        except MemError: pass
+    return 1
+def ext_guard_release(ex, st, fr, args, ins):
+    if isinstance(args[0], int):
+        cm = ex.check_mem; ex.check_mem = False
+        try: ex.write_bytes(st, args[0], b'\1')
+        finally: ex.check_mem = cm
+    return None
 def ext_cxa_alloc(ex, st, fr, args, ins): return ex.malloc(st, args[0] + 128) + 128
 def ext_cxa_throw(ex, st, fr, args, ins):
     n = ex.tinfo_name(args[1])
@@ -1242,7 +1259,7 @@ DEFAULT_EXT = {'_Znwm': ext_new, '_Znam': ext_new, '_ZdlPv': ext_free, '_ZdaPv':
                'memcpy': ext_memmove, 'memmove': ext_memmove, 'memset': ext_memset,
                '_ZNSt13random_device7_M_initERKNSt7__cxx1112basic_stringIcSt11char_traitsIcESaIcEEE': ext_noop, '_ZNSt13random_device7_M_finiEv': ext_noop,
                '_ZNSt13random_device9_M_getvalEv': ext_rd_getval,
-               '__cxa_guard_acquire': ext_atomic_guard, '__cxa_guard_release': ext_noop, '__cxa_atexit': ext_zero,
+               '__cxa_guard_acquire': ext_atomic_guard, '__cxa_guard_release': ext_guard_release, '__cxa_atexit': ext_zero,
                '__assert_fail': ext_pathend('assertion failed'), 'abort': ext_pathend('abort'), '_ZSt9terminatev': ext_pathend('terminate'),
                '__cxa_allocate_exception': ext_cxa_alloc, '__cxa_throw': ext_cxa_throw, '__cxa_begin_catch': ext_cxa_begin_catch, '__cxa_end_catch': ext_noop, '__cxa_free_exception': ext_noop,
                '__cxa_rethrow': ext_cxa_rethrow,
